@@ -500,6 +500,8 @@ def check_real(shells, convs, with_eri, rng, viols, errs, tag):
     gfl = float(np.sqrt(2 * np.abs(np.diag(_t)).max())) if isinstance(_t, np.ndarray) else 1.0
     rfl = 1.0 + max(float(np.abs(np.array(s_["c"])).max()) for s_ in shells)
 
+    tmax2 = [1.0]  # square of the largest coefficient of the transformation being judged (other data types)
+
     def judge(out, want, what, qty):
         nonlocal n
         n += 1
@@ -510,7 +512,7 @@ def check_real(shells, convs, with_eri, rng, viols, errs, tag):
         if out.shape != want.shape:
             viols.append(cm.viol("%s: shape %s vs %s" % (what, out.shape, want.shape), qty + "_shape"))
             return
-        fl = gfl * rfl * float(np.abs(T).max() ** 2 if "with transform" in what else 1.0) if "momentum_integral" in what else 0.0
+        fl = gfl * rfl * float(np.abs(T).max() ** 2 if "with transform" in what else tmax2[0]) if "momentum_integral" in what else 0.0
         if "overlap_integral_asymmetric" in what:
             fl = 1.0  # only the off-diagonal block is returned: for far-apart shells it is ~1e-280, the natural scale is 1
         sc = max(float(np.abs(want).max()), fl) + 1e-300
@@ -533,6 +535,16 @@ def check_real(shells, convs, with_eri, rng, viols, errs, tag):
             for Tn, nm in ((Tnear, "near-identity"), (np.eye(nf), "identity")):
                 tn = cm.call(fn, typed, transform=Tn)
                 judge(tn, apply(Tn, t, axes), "%s with a %s transform vs T applied to every basis index" % (name, nm), "transform_" + nm.replace("-", "_"))
+            # a transformation stored in another real data type denotes the same numbers: the result is that of its
+            # exact float64 image (integer-valued selections/sign flips, single-precision coefficients)
+            Ti = np.rint(3.0 * T / (np.abs(T).max() + 1e-300)).astype(np.int64)
+            Tf = T.astype(np.float32)
+            if np.all(np.isfinite(Tf)) and np.abs(Ti).sum() > 0:
+                for Td, nm in ((Ti, "int64"), (Tf, "float32")):
+                    td = cm.call(fn, typed, transform=Td)
+                    tmax2[0] = max(1.0, float(np.abs(Td).max()) ** 2)
+                    judge(td, apply(Td.astype(np.float64), t, axes), "%s with a %s transform vs T applied to every basis index" % (name, nm), "transform_" + nm)
+                tmax2[0] = 1.0
             if len(axes) <= 2:
                 # complex orbital coefficients: T (not its conjugate) is applied to EVERY basis index
                 Tc = T + 1j * np.roll(T, 1, axis=0) * 0.7
